@@ -41,6 +41,7 @@ def run_cases(ctx, cases, label, scratch):
         links = c.tree.link_paths()
         i, m = canon_result(i, links), canon_result(m, links)
         i, m = exhausted(i, m)
+        i, m = damaged_stream(c, i, m)
         i, m = sort_logs_after_save(c.ops, i), sort_logs_after_save(c.ops, m)
         if i != m:
             ctx.violation('correspondence', f'{label}: model and implementation differ',
@@ -58,6 +59,26 @@ def exhausted(i, m):
             if a[0] != 'ok' or b[0] != 'ok':
                 if b == ['err', ['OutOfFuel']] and a[0] == 'err' and a[1][0] == 'OSError' and a[1][1] in ('ELOOP', 'ENAMETOOLONG'):
                     x = [['err', ['Exhausted']]]
+                    return ['ok', i[1][:k] + x + i[1][k + 1:]], ['ok', m[1][:k] + x + m[1][k + 1:]]
+                break
+    return i, m
+
+
+DAMAGED = ('ManifestSyntaxError', 'BadCompressedFile', 'CodecInternalError', 'Internal')
+
+
+def damaged_stream(c, i, m):
+    """a compressed Manifest with flipped bytes: the streaming reader of the implementation may deliver part of the
+    (garbled) text before the codec notices, the oracle decompresses in one piece - which of syntax error / invalid
+    stream / truncated stream is reported first is not compared (all are failures to load that Manifest)"""
+    muts = c.meta.get('mutations') or []
+    if not any(str(x).startswith(('manifest-byte', 'manifest-garbage')) for x in muts):
+        return i, m
+    if i[0] == 'ok' and m[0] == 'ok' and len(i[1]) == len(m[1]):
+        for k, (a, b) in enumerate(zip(i[1], m[1])):
+            if a != b:
+                if a[0] == 'err' and b[0] == 'err' and a[1][0] in DAMAGED[:3] and b[1][0] in DAMAGED[:3]:
+                    x = [['err', ['DamagedManifest']]]
                     return ['ok', i[1][:k] + x + i[1][k + 1:]], ['ok', m[1][:k] + x + m[1][k + 1:]]
                 break
     return i, m
